@@ -8,6 +8,7 @@
   `Rule.parse` iterates in hash order).
 -/
 import Abnf.RuleResult
+import Abnf.Theorems.C01
 namespace Abnf.C02
 
 /-- `parse(source, start)` returns the match with the greatest end offset among all matches of the
@@ -68,6 +69,39 @@ theorem parse_all_spec (G : Grammar) (hG : GBoundsOk G) (f : Nat) (s : Src) (r :
       · have : j = s.length := Nat.le_antisymm hbound h1
         rw [this] at hj; exact absurd hj hnot
     simp only [parseAllWith, hpj, wholeOf, hjl, if_true]
+
+/-- With C01: on grammars without flags/exclusions, `parse` returns the maximum of the RFC 5234 derivable
+ends `[[r]](s, i)`, and raises ParseError iff that set is empty; `parse_all` succeeds iff `|s|` is derivable
+from offset 0. -/
+theorem parse_is_max_of_derivable (G : Grammar) (hG : GBoundsOk G) (hP : GPlain G) (f : Nat) (s : Src) (r i : Nat)
+    (hi : i ≤ s.length) (perm : List Match → List Match) (hp : SameMembers perm) :
+    (∀ t j, parseWith perm G f s r i = .ok t j → M G s (.ref r) i j ∧ ∀ j', M G s (.ref r) i j' → j' ≤ j) ∧
+    (parseWith perm G f s r i = .fail → ∀ j, ¬ M G s (.ref r) i j) := by
+  obtain ⟨c1, c2⟩ := C01.ends_iff_derivable G hG hP f s r i
+  constructor
+  · intro t j h
+    cases hl : lparse G f s (.ref r) i with
+    | oof => simp [parseWith, hl, pickWith] at h
+    | gerr => simp [parseWith, hl, pickWith] at h
+    | fail => simp [parseWith, hl, pickWith] at h
+    | ok out =>
+      obtain ⟨t', j', hpj, hj, hmax, _⟩ := parse_returns_longest G hG f s r i hi perm hp out hl
+      rw [h] at hpj
+      simp only [PRes.ok.injEq] at hpj
+      obtain ⟨rfl, rfl⟩ := hpj
+      exact ⟨(c1 out hl j).mp hj, fun j' hm => hmax j' ((c1 out hl j').mpr hm)⟩
+  · intro h
+    have := (parse_fails_iff_no_match G hG f s r i hi perm hp).1.mp h
+    exact c2 this
+
+theorem parse_all_iff_whole_input_derivable (G : Grammar) (hG : GBoundsOk G) (hP : GPlain G) (f : Nat) (s : Src) (r : Nat)
+    (perm : List Match → List Match) (hp : SameMembers perm) (out : List Match)
+    (h : lparse G f s (.ref r) 0 = .ok out) :
+    (M G s (.ref r) 0 s.length → ∃ t, parseAllWith perm G f s r = .ok t s.length ∧ t.value = s) ∧
+    (¬ M G s (.ref r) 0 s.length → parseAllWith perm G f s r = .fail) := by
+  obtain ⟨c1, _⟩ := C01.ends_iff_derivable G hG hP f s r 0
+  obtain ⟨a, b⟩ := parse_all_spec G hG f s r perm hp out h
+  exact ⟨fun hm => a ((c1 out h _).mpr hm), fun hn => b (fun hmem => hn ((c1 out h _).mp hmem))⟩
 
 /-- non-vacuity: an ambiguous rule with three ends; parse picks 3, parse_all accepts "aaa" only. -/
 example :
